@@ -336,11 +336,18 @@ fn worker(args: &[String]) -> i32 {
 			}
 			fps.push((rs, out.result.fingerprint, vh ^ out.result.stats.reads_checked));
 		}
-		if agg.samples.len() < 3 && nontrivial(&scenario, &out) && ops.len() <= 14 {
+		// short runs are written out in full; of longer ones (all runs of the thorough tier) the first
+		// operations and the total
+		if agg.samples.len() < 3 && nontrivial(&scenario, &out) && (ops.len() <= 14 || tier == Tier::Thorough) {
 			agg.samples.push(json!({
 				"run_seed": rs.to_string(),
 				"config": cfg.json(),
-				"ops": ops.iter().map(|o| o.json()).collect::<Vec<_>>(),
+				"ops_total": ops.len(),
+				"ops": ops.iter().take(14).map(|o| {
+					let j = o.json();
+					let t = j.to_string();
+					if t.len() > 1500 { json!({"op": j["op"], "abridged": format!("{}...", &t[..600])}) } else { j }
+				}).collect::<Vec<_>>(),
 				"events": out.result.counters.events,
 				"violations": out.result.violations.len(),
 			}));
